@@ -1246,6 +1246,10 @@ func readRecordSet(ctx context.Context, reader RecordReader, fileSize int64) (Re
 
 			if pos := atomic.LoadInt64(&pos); 0 < fileSize && 0 < pos && len(recordSet) == fileLoadingPreparedRecordSetCap && pos < fileSize {
 				l := int((float64(fileSize) / float64(pos)) * fileLoadingPreparedRecordSetCap * 1.2)
+				if fileSize < int64(l) {
+					// a record takes at least one byte of the file
+					l = int(fileSize)
+				}
 				newSet := make(RecordSet, fileLoadingPreparedRecordSetCap, l)
 				copy(newSet, recordSet)
 				recordSet = newSet
@@ -1387,6 +1391,9 @@ func loadViewFromJsonLinesFile(ctx context.Context, flags *option.Flags, fp *fil
 
 			if pos := atomic.LoadInt64(&pos); 0 < fileSize && 0 < pos && len(objectList) == fileLoadingPreparedRecordSetCap && pos < fileSize {
 				l := int((float64(fileSize) / float64(pos)) * fileLoadingPreparedRecordSetCap * 1.2)
+				if fileSize < int64(l) {
+					l = int(fileSize)
+				}
 				newSet := make([]txjson.Object, fileLoadingPreparedRecordSetCap, l)
 				copy(newSet, objectList)
 				objectList = newSet
